@@ -291,26 +291,39 @@ fn random_shard(ctx: &Ctx, ifaces: &[&'static IfaceDesc], shard: usize, cases: u
         let root = (iface.root)();
         let gen = Gen::new(
             iface,
-            GenOpts { lit: LitOpts { payload_newline: true, wild_payload: true, max_payload: 6 }, max_units: 2, ..Default::default() },
+            GenOpts { lit: LitOpts { payload_newline: true, wild_payload: true, max_payload: if rng.chance(1, 4) { 30 } else { 6 } }, max_units: 2, ..Default::default() },
         );
         let mut s: Vec<u8> = Vec::new();
         for _ in 0..rng.range(1, 2) {
             let m = gen.valid_msg(&mut rng);
             let mut st = Style::plain();
             st.seed = rng.next();
+            st.case = rng.below(3) as u8;
+            st.crlf = rng.chance(1, 4);
+            if rng.chance(1, 3) {
+                // other white-space bytes (TAB, CR, VT, NUL ...) at the permitted positions
+                let ws = |rng: &mut Rng| -> Vec<u8> { (0..rng.range(1, 2)).map(|_| *rng.pick(&super::c11::WS_BYTES)).collect() };
+                st.ws_after_header = ws(&mut rng);
+                if rng.chance(1, 2) {
+                    st.ws_after_comma = ws(&mut rng);
+                }
+                if rng.chance(1, 2) {
+                    st.ws_before_end = ws(&mut rng);
+                }
+            }
             s.extend_from_slice(&m.render(&st));
         }
-        // continuation: arbitrary bytes
+        // continuation: arbitrary bytes (class alphabet, or any byte value)
         for _ in 0..rng.below(6) {
-            s.push(*rng.pick(&ALPHABET));
+            s.push(if rng.chance(1, 3) { rng.byte() } else { *rng.pick(&ALPHABET) });
         }
         if rng.chance(1, 3) {
             // damage one byte so that error verdicts occur as well
             let i = rng.below(s.len());
-            s[i] = *rng.pick(&ALPHABET);
+            s[i] = if rng.chance(1, 3) { rng.byte() } else { *rng.pick(&ALPHABET) };
         }
-        if s.len() > 90 {
-            s.truncate(90);
+        if s.len() > 160 {
+            s.truncate(160);
         }
         acc.distinct.insert(fnv(&s));
         par::case_begin(&s, [shard as u64, case, 0, 0]);
